@@ -45,4 +45,13 @@ PROPS = {
         'not_covered': ['language-tag normalisation and the true/false and float dispatch in interface::set_preference (string splitting, thread-local access)', 'persistence across re-reads of the preference files (time stamps)', '"affects only the outputs it is documented to affect" (rule data)'],
         'explanation': 'preference setters and getter proved against the property clauses',
     },
+    'C13': {
+        'verus': ['U13b'],
+        'kani': ['U13a'],
+        'technique': 'Verus postcondition on the real tail of TTS::replace_string (start string, enclosed speech, end string of the same command and engine on every Ok path) + Kani on the mechanically extracted start/end tag tables of get_string_ssml / get_string_sapi5 (every command, start and end)',
+        'level_text': 'proof that every emitted start string is followed by the enclosed speech and the end string of the same command and engine (all commands, all engines, all rule results), and that for each of the 8 non-pause commands of SSML and SAPI5 the end string closes exactly the element the start string opens with syntactically valid attributes; the three branches of the Pause arm are checked on concrete representatives only (bounded, not counted)',
+        'level_note': 'assumed: format! arguments never contain markup (they are dropped by the extraction: float formatting is intractable for CBMC); the rule interpreter (replacements.replace) is an uninterpreted function; pause merging by regex (merge_pauses_xml), bookmark elements and "removing the tags leaves the words of TTS=None" are not covered',
+        'not_covered': ['merge_pauses_xml / merge_pauses_none (regex rewriting of the finished string)', 'compute_bookmark_element and that bookmark ids are ids of the expression (XPath results)', 'the first half of replace_string (spell/translate recursion, xpath evaluation)', 'words equal to the TTS=None words (rule driven)'],
+        'explanation': 'tag tables and the wrapping discipline of replace_string',
+    },
 }
